@@ -50,6 +50,11 @@ class VLoop(base_events.BaseEventLoop):
         self.set_exception_handler(self._on_exception)
         self.instants: Optional[set] = None  # set() to record every instant at which something ran
         self.handles_run = 0
+        # zero-delay loops (a timer re-armed with a non-positive delay) never let a virtual clock advance; in real
+        # life each turn costs CPU time, so after SPIN_LIMIT handles at one instant the clock is nudged by 20 ms
+        self.spins = 0
+        self._instant_us = start_us
+        self._runs_at_instant = 0
 
     # -- clock ---------------------------------------------------------------------------------
     def time(self) -> float:
@@ -103,8 +108,18 @@ class VLoop(base_events.BaseEventLoop):
                     self.instants.add(self.now_us)
                 h._run()
                 n += 1
+                if self.now_us != self._instant_us:
+                    self._instant_us, self._runs_at_instant = self.now_us, 0
+                self._runs_at_instant += 1
+                if self._runs_at_instant > self.SPIN_LIMIT:
+                    self.now_us += 20_000
+                    self.spins += 1
+                    if self.spins > 200_000:
+                        raise HarnessError("the code under test spins without ever blocking")
         self.handles_run += n
         return n
+
+    SPIN_LIMIT = 500
 
     def next_timer_us(self) -> Optional[int]:
         sched = self._scheduled
